@@ -396,10 +396,11 @@ func (u *vqUniverse) storesFor(btip, ftip int) (*vqStores, error) {
 		if s.err != nil {
 			return
 		}
-		if s.b, s.err = headerfs.NewBlockHeaderStore(dir, s.db, &u.params); s.err != nil {
+		sdb := &vqStrictDB{DB: s.db}
+		if s.b, s.err = headerfs.NewBlockHeaderStore(dir, sdb, &u.params); s.err != nil {
 			return
 		}
-		s.f, s.err = headerfs.NewFilterHeaderStore(dir, s.db, headerfs.RegularFilter, &u.params, nil)
+		s.f, s.err = headerfs.NewFilterHeaderStore(dir, sdb, headerfs.RegularFilter, &u.params, nil)
 		if s.err != nil {
 			return
 		}
@@ -565,6 +566,269 @@ func (d *vqFilterDB) FetchFilter(h *chainhash.Hash, t filterdb.FilterType) (*gcs
 	}
 	return f, err
 }
+
+// --------------------------------------------------------------------------
+// vqStrictDB: a walletdb.DB proxy around the real bdb database that enforces
+// the documented transaction lifetime.  walletdb: "The value returned by
+// [Get] is only valid during a transaction.  Attempting to access it after a
+// transaction has ended results in undefined behavior" - with bbolt the slice
+// points into the memory-mapped file, whose pages the next write transaction
+// (e.g. the filter batch writer) may recycle.  The proxy hands out copies of
+// every key / value slice and overwrites them when the transaction ends,
+// which is a behaviour bbolt is allowed to show.  Code that respects the
+// contract sees no difference.
+// --------------------------------------------------------------------------
+
+type vqStrictDB struct {
+	walletdb.DB
+}
+
+type vqTxMem struct {
+	out [][]byte
+}
+
+func (m *vqTxMem) own(v []byte) []byte {
+	if v == nil {
+		return nil
+	}
+	c := make([]byte, len(v))
+	copy(c, v)
+	m.out = append(m.out, c)
+	return c
+}
+
+// recycle: the transaction is over, its pages belong to somebody else.
+func (m *vqTxMem) recycle() {
+	for _, v := range m.out {
+		for i := range v {
+			v[i] = 0xa5
+		}
+	}
+	m.out = nil
+}
+
+func (d *vqStrictDB) View(f func(tx walletdb.ReadTx) error, reset func()) error {
+	return d.DB.View(func(tx walletdb.ReadTx) error {
+		m := &vqTxMem{}
+		defer m.recycle()
+		return f(&vqStrictRTx{ReadTx: tx, m: m})
+	}, reset)
+}
+
+func (d *vqStrictDB) Update(f func(tx walletdb.ReadWriteTx) error, reset func()) error {
+	return d.DB.Update(func(tx walletdb.ReadWriteTx) error {
+		m := &vqTxMem{}
+		defer m.recycle()
+		return f(&vqStrictRWTx{ReadWriteTx: tx, m: m})
+	}, reset)
+}
+
+// Batch keeps filterdb on the code path it takes with the real bdb backend.
+func (d *vqStrictDB) Batch(f func(tx walletdb.ReadWriteTx) error) error {
+	b, ok := d.DB.(walletdb.BatchDB)
+	if !ok {
+		return d.Update(f, func() {})
+	}
+	return b.Batch(func(tx walletdb.ReadWriteTx) error {
+		m := &vqTxMem{}
+		defer m.recycle()
+		return f(&vqStrictRWTx{ReadWriteTx: tx, m: m})
+	})
+}
+
+func (d *vqStrictDB) BeginReadTx() (walletdb.ReadTx, error) {
+	tx, err := d.DB.BeginReadTx()
+	if err != nil {
+		return nil, err
+	}
+	return &vqStrictRTx{ReadTx: tx, m: &vqTxMem{}, manual: true}, nil
+}
+
+func (d *vqStrictDB) BeginReadWriteTx() (walletdb.ReadWriteTx, error) {
+	tx, err := d.DB.BeginReadWriteTx()
+	if err != nil {
+		return nil, err
+	}
+	return &vqStrictRWTx{ReadWriteTx: tx, m: &vqTxMem{}, manual: true}, nil
+}
+
+type vqStrictRTx struct {
+	walletdb.ReadTx
+	m      *vqTxMem
+	manual bool
+}
+
+func (t *vqStrictRTx) ReadBucket(key []byte) walletdb.ReadBucket {
+	b := t.ReadTx.ReadBucket(key)
+	if b == nil {
+		return nil
+	}
+	return &vqStrictRB{ReadBucket: b, m: t.m}
+}
+
+func (t *vqStrictRTx) ForEachBucket(f func(key []byte) error) error {
+	return t.ReadTx.ForEachBucket(func(k []byte) error { return f(t.m.own(k)) })
+}
+
+func (t *vqStrictRTx) Rollback() error {
+	err := t.ReadTx.Rollback()
+	if t.manual {
+		t.m.recycle()
+	}
+	return err
+}
+
+type vqStrictRWTx struct {
+	walletdb.ReadWriteTx
+	m      *vqTxMem
+	manual bool
+}
+
+func (t *vqStrictRWTx) ReadBucket(key []byte) walletdb.ReadBucket {
+	b := t.ReadWriteTx.ReadBucket(key)
+	if b == nil {
+		return nil
+	}
+	return &vqStrictRB{ReadBucket: b, m: t.m}
+}
+
+func (t *vqStrictRWTx) ForEachBucket(f func(key []byte) error) error {
+	return t.ReadWriteTx.ForEachBucket(func(k []byte) error { return f(t.m.own(k)) })
+}
+
+func (t *vqStrictRWTx) wrap(b walletdb.ReadWriteBucket) walletdb.ReadWriteBucket {
+	if b == nil {
+		return nil
+	}
+	return &vqStrictRWB{ReadWriteBucket: b, tx: t}
+}
+
+func (t *vqStrictRWTx) ReadWriteBucket(key []byte) walletdb.ReadWriteBucket {
+	return t.wrap(t.ReadWriteTx.ReadWriteBucket(key))
+}
+
+func (t *vqStrictRWTx) CreateTopLevelBucket(key []byte) (walletdb.ReadWriteBucket, error) {
+	b, err := t.ReadWriteTx.CreateTopLevelBucket(key)
+	if err != nil {
+		return nil, err
+	}
+	return t.wrap(b), nil
+}
+
+func (t *vqStrictRWTx) Commit() error {
+	err := t.ReadWriteTx.Commit()
+	if t.manual {
+		t.m.recycle()
+	}
+	return err
+}
+
+func (t *vqStrictRWTx) Rollback() error {
+	err := t.ReadWriteTx.Rollback()
+	if t.manual {
+		t.m.recycle()
+	}
+	return err
+}
+
+type vqStrictRB struct {
+	walletdb.ReadBucket
+	m *vqTxMem
+}
+
+func (b *vqStrictRB) NestedReadBucket(key []byte) walletdb.ReadBucket {
+	n := b.ReadBucket.NestedReadBucket(key)
+	if n == nil {
+		return nil
+	}
+	return &vqStrictRB{ReadBucket: n, m: b.m}
+}
+
+func (b *vqStrictRB) ForEach(f func(k, v []byte) error) error {
+	return b.ReadBucket.ForEach(func(k, v []byte) error { return f(b.m.own(k), b.m.own(v)) })
+}
+
+func (b *vqStrictRB) Get(key []byte) []byte { return b.m.own(b.ReadBucket.Get(key)) }
+
+func (b *vqStrictRB) ReadCursor() walletdb.ReadCursor {
+	return &vqStrictCur{ReadCursor: b.ReadBucket.ReadCursor(), m: b.m}
+}
+
+type vqStrictRWB struct {
+	walletdb.ReadWriteBucket
+	tx *vqStrictRWTx
+}
+
+func (b *vqStrictRWB) NestedReadBucket(key []byte) walletdb.ReadBucket {
+	n := b.ReadWriteBucket.NestedReadBucket(key)
+	if n == nil {
+		return nil
+	}
+	return &vqStrictRB{ReadBucket: n, m: b.tx.m}
+}
+
+func (b *vqStrictRWB) NestedReadWriteBucket(key []byte) walletdb.ReadWriteBucket {
+	return b.tx.wrap(b.ReadWriteBucket.NestedReadWriteBucket(key))
+}
+
+func (b *vqStrictRWB) CreateBucket(key []byte) (walletdb.ReadWriteBucket, error) {
+	n, err := b.ReadWriteBucket.CreateBucket(key)
+	if err != nil {
+		return nil, err
+	}
+	return b.tx.wrap(n), nil
+}
+
+func (b *vqStrictRWB) CreateBucketIfNotExists(key []byte) (walletdb.ReadWriteBucket, error) {
+	n, err := b.ReadWriteBucket.CreateBucketIfNotExists(key)
+	if err != nil {
+		return nil, err
+	}
+	return b.tx.wrap(n), nil
+}
+
+func (b *vqStrictRWB) ForEach(f func(k, v []byte) error) error {
+	return b.ReadWriteBucket.ForEach(func(k, v []byte) error { return f(b.tx.m.own(k), b.tx.m.own(v)) })
+}
+
+func (b *vqStrictRWB) Get(key []byte) []byte { return b.tx.m.own(b.ReadWriteBucket.Get(key)) }
+
+func (b *vqStrictRWB) ReadCursor() walletdb.ReadCursor {
+	return &vqStrictCur{ReadCursor: b.ReadWriteBucket.ReadCursor(), m: b.tx.m}
+}
+
+func (b *vqStrictRWB) ReadWriteCursor() walletdb.ReadWriteCursor {
+	c := b.ReadWriteBucket.ReadWriteCursor()
+	return &vqStrictRWCur{vqStrictCur: vqStrictCur{ReadCursor: c, m: b.tx.m}, rw: c}
+}
+
+func (b *vqStrictRWB) Tx() walletdb.ReadWriteTx { return b.tx }
+
+type vqStrictCur struct {
+	walletdb.ReadCursor
+	m *vqTxMem
+}
+
+func (c *vqStrictCur) kv(k, v []byte) ([]byte, []byte) { return c.m.own(k), c.m.own(v) }
+func (c *vqStrictCur) First() ([]byte, []byte)         { return c.kv(c.ReadCursor.First()) }
+func (c *vqStrictCur) Last() ([]byte, []byte)          { return c.kv(c.ReadCursor.Last()) }
+func (c *vqStrictCur) Next() ([]byte, []byte)          { return c.kv(c.ReadCursor.Next()) }
+func (c *vqStrictCur) Prev() ([]byte, []byte)          { return c.kv(c.ReadCursor.Prev()) }
+func (c *vqStrictCur) Seek(s []byte) ([]byte, []byte)  { return c.kv(c.ReadCursor.Seek(s)) }
+
+type vqStrictRWCur struct {
+	vqStrictCur
+	rw walletdb.ReadWriteCursor
+}
+
+func (c *vqStrictRWCur) Delete() error { return c.rw.Delete() }
+
+var (
+	_ walletdb.BatchDB         = (*vqStrictDB)(nil)
+	_ walletdb.ReadWriteTx     = (*vqStrictRWTx)(nil)
+	_ walletdb.ReadWriteBucket = (*vqStrictRWB)(nil)
+	_ walletdb.ReadWriteCursor = (*vqStrictRWCur)(nil)
+)
 
 // --------------------------------------------------------------------------
 // Path I/O
@@ -1347,7 +1611,7 @@ func vqNewWorker(dir string) (*vqWorker, error) {
 	if err != nil {
 		return nil, err
 	}
-	if w.fs, err = filterdb.New(w.fdb, chaincfg.RegressionNetParams); err != nil {
+	if w.fs, err = filterdb.New(&vqStrictDB{DB: w.fdb}, chaincfg.RegressionNetParams); err != nil {
 		return nil, err
 	}
 	w.fdbDirty = true
@@ -1543,7 +1807,7 @@ func newBqEnv(u *vqUniverse, w *vqWorker, init *bqObs, seed int64) (*bqEnv, erro
 	e := &bqEnv{u: u, st: st, w: w, nb: nb, np: np, sched: &vqSched{ev: make(chan vqEvent, 4)},
 		ret: vqRUN, rng: rand.New(rand.NewSource(seed)), done: make(chan struct{})}
 	if w.ban == nil {
-		if w.ban, err = banman.NewStore(w.bandb); err != nil {
+		if w.ban, err = banman.NewStore(&vqStrictDB{DB: w.bandb}); err != nil {
 			return nil, err
 		}
 		w.banDirty = true
